@@ -151,6 +151,14 @@ def dropEmptyDir (U : StoreOps σu) (L : StoreOps σl) (s : OvState σu σl) (k 
           | .error e => .error e
           | .ok inL => .ok (u, s.2.1, if inL then addKey s.2.2 k else s.2.2)
 
+/-- the body of the loop in a recursive `removedir`: sub-directories recurse (`recur`), anything else is `remove`d -/
+def rmChild (U : StoreOps σu) (L : StoreOps σl) (recur : OvState σu σl → Key → Except StoreErr (OvState σu σl))
+    (k : Key) (st : OvState σu σl) (nm : Str) : Except StoreErr (OvState σu σl) :=
+  match isDir U L st (k ++ [nm]) with
+  | .error e => .error e
+  | .ok true => recur st (k ++ [nm])
+  | .ok false => remove U L st (k ++ [nm])
+
 /-- `removedir`; the recursion goes through the overlay's *own* `listdir_keys` (computed once, before the
 loop), `is_dir`, `remove`.  Out of fuel = `.error .other` (Python: `RecursionError`). -/
 def removedirFuel (U : StoreOps σu) (L : StoreOps σl) : Nat → OvState σu σl → Key → Bool → Except StoreErr (OvState σu σl)
@@ -160,11 +168,7 @@ def removedirFuel (U : StoreOps σu) (L : StoreOps σl) : Nat → OvState σu σ
       if recursive then
         match listdirL U L s k with
         | .error e => .error e
-        | .ok names => names.foldlM (fun st nm =>
-            match isDir U L st (k ++ [nm]) with
-            | .error e => .error e
-            | .ok true => removedirFuel U L n st (k ++ [nm]) true
-            | .ok false => remove U L st (k ++ [nm])) s
+        | .ok names => names.foldlM (rmChild U L (fun st c => removedirFuel U L n st c true) k) s
       else .ok s
     match walked with
     | .error e => .error e
